@@ -17,7 +17,7 @@ import numpy as np
 
 from mc.harness import Result, Sub, digest
 from mc.lammps_text import bounds_of, frame_text
-from mc.ref import io19
+from mc.ref import c19x, io19
 
 ASSUMPTIONS = [
     "dump data are dyadic (multiples of 2^-4 .. 2^-13) and printed with repr/%.16e, so read-back values are compared exactly (atol 1e-12)",
@@ -42,7 +42,17 @@ ASSUMPTIONS = [
     "read_gsd_dcd_wrapper is driven with GSD paths that have a directory component ('./x.gsd', 'dir/x.gsd'); the path derivation of the "
     "wrapper for bare file names is outside the statement",
     "log values are compared with rtol 1e-9 (pandas' fast float parser is not correctly rounded)",
+    "scale slices: atom ids are 1..N of the frame; type labels have one to three digits; a column list may repeat a column, be descending and "
+    "name the id/type/coordinate columns (the reader indexes the split line, nothing else); the list may hold numpy integers; real LAMMPS "
+    "files end the ATOMS line and the atom lines with a blank; HOOMD type ids go up to 299 (typeid is uint32) and steps beyond 2^31",
 ]
+
+# Inputs on which the UNCHANGED tree violates the statement (reported, not yet repaired in /repo).  The guarded cases are not enumerated while
+# the entry is listed; remove the entry once the repair is in.
+#   log_modern_header: LAMMPS >= 4May2022 prints the thermo header aligned with its columns ('      Step          Temp ...'); the reader looks for
+#       lines that START with 'Step ' and returns [] for such a log (every section lost, no error).  Witness: c19x.log_section(seed, 0, 2, 3, layout=2).
+#       Proposed repair: simulation_log.py L27 `val.lstrip().startswith("Step ")`.
+KNOWN_OPEN = []  # "log_modern_header" was repaired by /repo commit 422c0d5 (known_findings.json: fixed)
 
 F32 = np.float32
 
@@ -590,12 +600,83 @@ def _frames_unchanged(traj, frames):
     return True
 
 
-def run_gsd(case):
-    """Explicit-state search over frame-append histories (state = history, rebuilt on fresh objects for every execution)."""
+def _gsd_execute(R, reg, d, dcdmode, frames, dcds, exps, hs):
+    """All conversions of ONE trajectory (frames as DuckFrame kwargs, dcds as position tables) on fresh duck objects, compared with exps.
+    Returns (runs, number of executed conversions)."""
     from PyMatterSim.reader.dump_reader import DumpReader
     from PyMatterSim.reader.gsd_reader_helper import read_gsd, read_gsd_dcd, read_gsd_dcd_wrapper, read_gsd_wrapper
     from PyMatterSim.reader.reader_utils import DumpFileType
 
+    ntr = 0
+
+    def fresh(name=None):
+        return io19.DuckTrajectory([io19.DuckFrame(**fr) for fr in frames], name)
+
+    def fresh_dcd(xyz=None, name=None):
+        return io19.DuckDCD(np.array(dcds if xyz is None else xyz, dtype=F32).reshape(-1, len(frames[0]["typeid"]) if xyz is None else np.array(xyz).shape[1], 3),
+                            [fr["box"][:3] for fr in frames] if xyz is None else None, name)
+
+    runs = []
+    if not dcdmode:
+        t = fresh()
+        runs.append(("read_gsd", read_gsd(t, d), t, None))
+        for path in ("./c19.gsd", "trajs/run_1.gsd"):
+            reg.gsd.clear()
+            t = reg.gsd[path] = fresh(path)
+            runs.append(("read_gsd_wrapper", read_gsd_wrapper(path, d), t, None))
+        reg.gsd.clear()
+        t = reg.gsd["./c19.gsd"] = fresh()
+        rd = DumpReader("./c19.gsd", ndim=d, filetype=DumpFileType.GSD)
+        rd.read_onefile()
+        runs.append(("DumpReader", rd.snapshots, t, None))
+    else:
+        t, c = fresh(), fresh_dcd()
+        runs.append(("read_gsd_dcd", read_gsd_dcd(t, c, d), t, None))
+        for path in ("./c19.gsd", "trajs/run_1.gsd"):
+            reg.gsd.clear()
+            reg.dcd.clear()
+            t = reg.gsd[path] = fresh(path)
+            c = reg.dcd[path[:-3] + "dcd"] = fresh_dcd()
+            runs.append(("read_gsd_dcd_wrapper", read_gsd_dcd_wrapper(path, d), t, c))
+        reg.gsd.clear()
+        reg.dcd.clear()
+        t = reg.gsd["./c19.gsd"] = fresh()
+        c = reg.dcd["./c19.dcd"] = fresh_dcd()
+        rd = DumpReader("./c19.gsd", ndim=d, filetype=DumpFileType.GSD_DCD)
+        rd.read_onefile()
+        runs.append(("DumpReader", rd.snapshots, t, c))
+    for tag, S, t, c in runs:
+        ntr += 1
+        R.elem += _cmp_snapshots(R, tag, S, exps, hs, GSD_KEYS)
+        if not _frames_unchanged(t, frames):
+            R.fail(f"{tag}: the frame objects were modified by the conversion", sig=dict(hs, clause="input"))
+        if c is not None and not c.closed:
+            R.fail(f"{tag}: the DCD file was not closed", sig=dict(hs, clause="close"))
+    # wrong dimension -> None
+    other = 5 - d
+    t = fresh()
+    S = read_gsd_dcd(t, fresh_dcd(), other) if dcdmode else read_gsd(t, other)
+    ntr += 1
+    if S is not None:
+        R.fail(f"ndim={other} given for a {d}-dimensional trajectory: expected None", sig=dict(hs, clause="wrong_ndim"))
+    if dcdmode:
+        n = len(frames[0]["typeid"])
+        F = len(frames)
+        full = np.array(dcds, dtype=F32).reshape(F, n, 3)
+        bad = {"one frame more": np.concatenate([full, full[-1:]], axis=0), "one frame less": full[:-1],
+               "one atom more": np.concatenate([full, full[:, -1:, :]], axis=1)}
+        if n > 1:
+            bad["one atom less"] = full[:, :-1, :]
+        for what, xyz in bad.items():
+            S = read_gsd_dcd(fresh(), fresh_dcd(xyz), d)
+            ntr += 1
+            if S is not None:
+                R.fail(f"DCD companion with {what}: expected None", sig=dict(hs, clause="inconsistent"))
+    return runs, ntr
+
+
+def run_gsd(case):
+    """Explicit-state search over frame-append histories (state = history, rebuilt on fresh objects for every execution)."""
     reg = io19.install_stubs()
     R = Result()
     d = case["d"]
@@ -618,69 +699,8 @@ def run_gsd(case):
         hs = dict(sig, F="1" if len(h) == 1 else ">1")
         exps = gsd_expect(d, frames, dcds if dcdmode else None)
 
-        def fresh(name=None):
-            return io19.DuckTrajectory([io19.DuckFrame(**fr) for fr in frames], name)
-
-        def fresh_dcd(xyz=None, name=None):
-            return io19.DuckDCD(np.array(dcds if xyz is None else xyz, dtype=F32).reshape(-1, len(frames[0]["typeid"]) if xyz is None else np.array(xyz).shape[1], 3),
-                                [fr["box"][:3] for fr in frames] if xyz is None else None, name)
-
-        runs = []
-        if not dcdmode:
-            t = fresh()
-            runs.append(("read_gsd", read_gsd(t, d), t, None))
-            for path in ("./c19.gsd", "trajs/run_1.gsd"):
-                reg.gsd.clear()
-                t = reg.gsd[path] = fresh(path)
-                runs.append(("read_gsd_wrapper", read_gsd_wrapper(path, d), t, None))
-            reg.gsd.clear()
-            t = reg.gsd["./c19.gsd"] = fresh()
-            rd = DumpReader("./c19.gsd", ndim=d, filetype=DumpFileType.GSD)
-            rd.read_onefile()
-            runs.append(("DumpReader", rd.snapshots, t, None))
-        else:
-            t, c = fresh(), fresh_dcd()
-            runs.append(("read_gsd_dcd", read_gsd_dcd(t, c, d), t, None))
-            for path in ("./c19.gsd", "trajs/run_1.gsd"):
-                reg.gsd.clear()
-                reg.dcd.clear()
-                t = reg.gsd[path] = fresh(path)
-                c = reg.dcd[path[:-3] + "dcd"] = fresh_dcd()
-                runs.append(("read_gsd_dcd_wrapper", read_gsd_dcd_wrapper(path, d), t, c))
-            reg.gsd.clear()
-            reg.dcd.clear()
-            t = reg.gsd["./c19.gsd"] = fresh()
-            c = reg.dcd["./c19.dcd"] = fresh_dcd()
-            rd = DumpReader("./c19.gsd", ndim=d, filetype=DumpFileType.GSD_DCD)
-            rd.read_onefile()
-            runs.append(("DumpReader", rd.snapshots, t, c))
-        for tag, S, t, c in runs:
-            transitions += 1
-            R.elem += _cmp_snapshots(R, tag, S, exps, hs, GSD_KEYS)
-            if not _frames_unchanged(t, frames):
-                R.fail(f"{tag}: the frame objects were modified by the conversion", sig=dict(hs, clause="input"))
-            if c is not None and not c.closed:
-                R.fail(f"{tag}: the DCD file was not closed", sig=dict(hs, clause="close"))
-        # wrong dimension -> None
-        other = 5 - d
-        t = fresh()
-        S = read_gsd_dcd(t, fresh_dcd(), other) if dcdmode else read_gsd(t, other)
-        transitions += 1
-        if S is not None:
-            R.fail(f"ndim={other} given for a {d}-dimensional trajectory: expected None", sig=dict(hs, clause="wrong_ndim"))
-        if dcdmode:
-            n = len(frames[0]["typeid"])
-            F = len(frames)
-            full = np.array(dcds, dtype=F32).reshape(F, n, 3)
-            bad = {"one frame more": np.concatenate([full, full[-1:]], axis=0), "one frame less": full[:-1],
-                   "one atom more": np.concatenate([full, full[:, -1:, :]], axis=1)}
-            if n > 1:
-                bad["one atom less"] = full[:, :-1, :]
-            for what, xyz in bad.items():
-                S = read_gsd_dcd(fresh(), fresh_dcd(xyz), d)
-                transitions += 1
-                if S is not None:
-                    R.fail(f"DCD companion with {what}: expected None", sig=dict(hs, clause="inconsistent"))
+        runs, ntr = _gsd_execute(R, reg, d, dcdmode, frames, dcds, exps, hs)
+        transitions += ntr
         outs.append([[e["timestep"], e["particle_type"], e["positions"]] for e in exps] if runs[0][1] is None else
                     [[s.timestep, s.particle_type, s.positions, s.hmatrix] for s in runs[0][1].snapshots])
         if len(h) < case["depth"]:
@@ -761,6 +781,26 @@ def log_text(seed, pre, layout, h, tail):
     return text, secs
 
 
+def _cmp_sections(R, frames, secs, S, tail, sg):
+    """names, shape and every value of the first len(secs) returned tables; returns the number of compared values"""
+    n = 0
+    for k, (names, rows) in enumerate(secs):
+        df = frames[k]
+        want = np.array(rows, float)
+        if [str(c) for c in df.columns] != names:
+            R.fail(f"section {k} of {S} (tail: {tail}): column names differ", sig=sg("columns"), exp=names, obs=[str(c) for c in df.columns])
+            continue
+        if df.shape != want.shape:
+            R.fail(f"section {k} of {S} (tail: {tail}): {df.shape[0]} rows x {df.shape[1]} columns, expected {want.shape}",
+                   sig=sg("rows"), exp=want, obs=df.values.tolist())
+            continue
+        got = np.array([[_num(x) for x in row] for row in df.values.tolist()], float)
+        if not np.isclose(got, want, rtol=1e-9, atol=1e-15).all():
+            R.fail(f"section {k} of {S} (tail: {tail}): values differ", sig=sg("values"), exp=want, obs=df.values.tolist())
+        n += want.size
+    return n
+
+
 def run_log(case):
     """Explicit-state search over section-append histories; every state is closed with every tail."""
     from PyMatterSim.reader.simulation_log import read_lammpslog
@@ -802,20 +842,7 @@ def run_log(case):
                 R.fail(f"{len(frames) if isinstance(frames, list) else type(frames).__name__} frames returned for a log with {S} complete sections "
                        f"(tail: {tail})", sig=sg("count"))
                 continue
-            for k, (names, rows) in enumerate(secs):
-                df = frames[k]
-                want = np.array(rows, float)
-                if [str(c) for c in df.columns] != names:
-                    R.fail(f"section {k} of {S} (tail: {tail}): column names differ", sig=sg("columns"), exp=names, obs=[str(c) for c in df.columns])
-                    continue
-                if df.shape != want.shape:
-                    R.fail(f"section {k} of {S} (tail: {tail}): {df.shape[0]} rows x {df.shape[1]} columns, expected {want.shape}",
-                           sig=sg("rows"), exp=want, obs=df.values.tolist())
-                    continue
-                got = np.array([[_num(x) for x in row] for row in df.values.tolist()], float)
-                if not np.isclose(got, want, rtol=1e-9, atol=1e-15).all():
-                    R.fail(f"section {k} of {S} (tail: {tail}): values differ", sig=sg("values"), exp=want, obs=df.values.tolist())
-                R.elem += want.size
+            R.elem += _cmp_sections(R, frames, secs, S, tail, sg)
             if tail == "end":
                 outs.append([[list(map(str, df.columns)), df.values.tolist()] for df in frames])
         if S < case["depth"]:
@@ -833,6 +860,296 @@ def _num(x):
         return float(x)
     except (TypeError, ValueError):
         return float("nan")
+
+
+
+# ===================================================================================== C19.scale.*  (SIZES, one value pattern per size)
+N_SCALE = [10, 12, 100, 130, 257]
+F_SCALE = [1, 10, 12]
+NF_SCALE_QUICK = [[10, 12], [12, 10], [100, 12], [130, 1], [257, 10], [12, 65]]
+NF_SCALE_ALL = [[n, F] for n in N_SCALE for F in F_SCALE] + [[12, 65], [10, 130]]
+NF_HDR_QUICK = [[10, 12], [100, 10], [257, 1], [1000, 12]]
+NF_HDR_ALL = [[n, F] for n in (10, 100, 257, 1000) for F in F_SCALE]
+CENTER_MAPS = [[[3, 1], [12, 2]], [[300, 5]], [[77, 1]], [[77, 2], [1, 1]], [[1, 2], [2, 1], [3, 3], [12, 12], [300, 4], [77, 9]]]
+
+
+def _orders(tier):
+    return ("affine", "desc") if tier == "quick" else ("affine", "desc", "asc")
+
+
+def gen_scale_center(tier, seed):
+    q = tier == "quick"
+    for n, F in (NF_SCALE_QUICK if q else NF_SCALE_ALL):
+        for d in (3, 2):
+            for si, style in enumerate(("x", "xs", "xu")):
+                for mi, m in enumerate(CENTER_MAPS):
+                    for oi, order in enumerate(_orders(tier)):
+                        if q and (oi + mi + si) % 2:
+                            continue
+                        yield {"d": d, "style": style, "N": n, "F": F, "order": order, "E": [0, 3, 12][(mi + oi) % 3], "vary": "all" if F > 1 else None,
+                               "blanks": bool((mi + si) % 2), "single": True, "map": m, "seed": seed}
+
+
+def run_scale_center(case):
+    from PyMatterSim.reader.dump_reader import DumpReader
+    from PyMatterSim.reader.lammps_reader_helper import read_lammps_centertype_wrapper
+    from PyMatterSim.reader.reader_utils import DumpFileType
+
+    R = Result()
+    d = case["d"]
+    m = {int(a): int(b) for a, b in case["map"]}
+    text, frames = c19x.dump_frames(case)
+    exps = []
+    for e in frames:
+        sel = [i for i, t in enumerate(e["types"]) if t in m]
+        exps.append(dict(e, nparticle=len(sel), particle_type=np.array([m[e["types"][i]] for i in sel], dtype=int), positions=e["truth"][sel].reshape(len(sel), d)))
+    sig = {"d": d, "style": case["style"], "slice": "scale"}
+    io19.put("c19c.dump", "".join(text))
+    m1, m2 = dict(m), dict(m)
+    rd = DumpReader("c19c.dump", ndim=d, filetype=DumpFileType.LAMMPSCENTER, moltypes=m1)
+    rd.read_onefile()
+    s2 = read_lammps_centertype_wrapper("c19c.dump", d, m2)
+    R.elem = 0
+    for tag, S in (("DumpReader", rd.snapshots), ("read_lammps_centertype_wrapper", s2)):
+        R.elem += _cmp_snapshots(R, tag, S, exps, sig, ALL_KEYS)
+    if m1 != m or m2 != m:
+        R.fail("the type map was modified by the reader", sig=dict(sig, clause="input"))
+    R.outcome([[int(s.timestep), int(s.nparticle), digest(np.ascontiguousarray(s.positions)), digest(np.ascontiguousarray(s.particle_type))] for s in s2.snapshots])
+    R.nontrivial = any(x["nparticle"] > 0 for x in exps)
+    return R
+
+
+def scale_col_lists(d, E):
+    """column-id lists (1-based over the whole line) of length 1..6 for a line with E >= 6 trailing columns: single, descending pair with a
+    two-digit id, 6 descending, repeats + id + type, coordinate columns mixed in, 5 ascending, 4 unordered"""
+    first, last = d + 3, d + 2 + E
+    return [[first], [last, first], list(range(last, last - 6, -1)), [first, first, last - 2, last - 2, 1, 2], [3, d + 2, first + 5],
+            list(range(first, first + 5)), [last - 2, last - 1, last, last - 3]]
+
+
+def _hdr_writer(ts, n, bb, names):
+    from PyMatterSim.writer.lammps_writer import write_dump_header
+
+    return write_dump_header(ts, n, bb, " ".join(names))
+
+
+def gen_scale_vector(tier, seed):
+    q = tier == "quick"
+    for n, F in (NF_SCALE_QUICK if q else NF_SCALE_ALL):
+        for d in (3, 2):
+            for E in ((12,) if q else (6, 12)):
+                for ci, cols in enumerate(scale_col_lists(d, E)):
+                    for oi, order in enumerate(_orders(tier)):
+                        if q and (oi + ci) % 2:
+                            continue
+                        yield {"d": d, "N": n, "F": F, "order": order, "E": E, "cols": cols, "npints": bool((ci + oi) % 2), "vary": "all" if F > 1 else None,
+                               "writer": "hdr" if (ci + oi + d) % 3 == 0 else "enc", "blanks": bool(ci % 2), "syntax": "sci" if ci == 4 else "decimal", "seed": seed}
+
+
+def run_scale_vector(case):
+    from PyMatterSim.reader.dump_reader import DumpReader
+    from PyMatterSim.reader.lammps_reader_helper import read_lammps_vector_wrapper
+    from PyMatterSim.reader.reader_utils import DumpFileType
+
+    R = Result()
+    d = case["d"]
+    cols = list(case["cols"])
+    text, frames = c19x.dump_frames(case, _hdr_writer if case["writer"] == "hdr" else None)
+    exps = [dict(e, positions=e["rows"][:, [c - 1 for c in cols]].reshape(e["nparticle"], len(cols))) for e in frames]
+    sig = {"d": d, "ncols": len(cols), "slice": "scale"}
+    io19.put("c19v.dump", "".join(text))
+    mk = (lambda: [np.int64(c) for c in cols]) if case["npints"] else (lambda: list(cols))
+    c1, c2 = mk(), mk()
+    rd = DumpReader("c19v.dump", ndim=d, filetype=DumpFileType.LAMMPSVECTOR, columnsids=c1)
+    rd.read_onefile()
+    s2 = read_lammps_vector_wrapper("c19v.dump", d, c2)
+    R.elem = 0
+    for tag, S in (("DumpReader", rd.snapshots), ("read_lammps_vector_wrapper", s2)):
+        R.elem += _cmp_snapshots(R, tag, S, exps, sig, ALL_KEYS)
+    if [int(c) for c in c1] != cols or [int(c) for c in c2] != cols:
+        R.fail("the column list was modified by the reader", sig=dict(sig, clause="input"))
+    R.outcome([[int(s.timestep), int(s.nparticle), digest(np.ascontiguousarray(s.positions))] for s in s2.snapshots])
+    return R
+
+
+def gen_scale_additions(tier, seed):
+    q = tier == "quick"
+    for n, F in (NF_SCALE_QUICK if q else NF_SCALE_ALL):
+        for d in (3, 2):
+            for E in ((12,) if q else (1, 6, 12)):
+                for ncol in range(0, d + 2 + E):
+                    for oi, order in enumerate(_orders(tier)):
+                        if q and (oi + ncol) % 2:
+                            continue
+                        k = ncol + oi
+                        yield {"d": d, "N": n, "F": F, "order": order, "E": E, "ncol": ncol, "vary": "cell" if F > 1 else None, "cell": "tri" if k % 3 == 1 else "orth",
+                               "writer": "hdr" if k % 3 == 2 else "enc", "blanks": bool(k % 2), "syntax": "sci" if k % 5 == 0 else "decimal", "seed": seed}
+
+
+def run_scale_additions(case):
+    from PyMatterSim.reader.lammps_reader_helper import read_additions
+
+    R = Result()
+    d = case["d"]
+    text, frames = c19x.dump_frames(case, _hdr_writer if case["writer"] == "hdr" else None)
+    want = np.array([e["rows"][:, case["ncol"]] for e in frames], float)
+    sig = {"d": d, "slice": "scale"}
+    io19.put("c19a.dump", "".join(text))
+    A = read_additions("c19a.dump", case["ncol"])
+    if not isinstance(A, np.ndarray) or A.shape != want.shape or A.dtype.kind != "f":
+        R.fail(f"read_additions: result of shape {getattr(A, 'shape', None)}, expected float array {want.shape} [frames, particles]", sig=dict(sig, clause="shape"))
+    elif not (np.abs(A - want) <= 1e-12).all():
+        R.fail(f"read_additions(ncol={case['ncol']}): values by (frame, atom id) differ", sig=dict(sig, clause="values"), exp=want, obs=A)
+    R.elem = want.size
+    R.outcome(digest(np.ascontiguousarray(A)) if isinstance(A, np.ndarray) else None)
+    return R
+
+
+def gen_scale_header(tier, seed):
+    q = tier == "quick"
+    for n, F in (NF_HDR_QUICK if q else NF_HDR_ALL):
+        for d in (3, 2):
+            for E in (0, 2, 12):
+                for oi, order in enumerate(_orders(tier)):
+                    for vary in (("all",) if q or F == 1 else ("all", "cell")):
+                        yield {"d": d, "N": n, "F": F, "order": order, "E": E, "vary": vary if F > 1 else None, "blanks": bool(oi % 2), "aslist": bool((oi + E) % 2),
+                               "seed": seed}
+
+
+def run_scale_header(case):
+    """write_dump_header (N up to 1000, timesteps beyond 2^31 / 13 digits) + atom lines -> every dump reader"""
+    from PyMatterSim.reader.dump_reader import DumpReader
+    from PyMatterSim.reader.lammps_reader_helper import read_additions, read_lammps_vector_wrapper, read_lammps_wrapper
+    from PyMatterSim.reader.reader_utils import DumpFileType
+    from PyMatterSim.writer.lammps_writer import write_dump_header
+
+    R = Result()
+    d, E = case["d"], case["E"]
+    sig = {"d": d, "addson": "names" if E else "empty", "slice": "scale"}
+    heads = []
+
+    def hdr(ts, n, bb, names):
+        arg = bb.tolist() if case["aslist"] else np.array(bb)
+        h = write_dump_header(ts if case["aslist"] else np.int64(ts), n, arg, " ".join(names))
+        heads.append(h)
+        if isinstance(h, str):
+            _header_grammar(R, h, ts, n, bb.tolist(), d, " ".join(names), sig)
+        return h if isinstance(h, str) else ""
+
+    text, frames = c19x.dump_frames(case, hdr)
+    exps = [dict(e, positions=e["truth"]) for e in frames]
+    io19.put("c19h.dump", "".join(text))
+    rd = DumpReader("c19h.dump", ndim=d, filetype=DumpFileType.LAMMPS)
+    rd.read_onefile()
+    s2 = read_lammps_wrapper("c19h.dump", d)
+    R.elem = 0
+    for tag, S in (("DumpReader", rd.snapshots), ("read_lammps_wrapper", s2)):
+        R.elem += _cmp_snapshots(R, tag, S, exps, sig, ALL_KEYS)
+    if E:
+        cols = [d + 3 + c for c in range(E)]
+        V = read_lammps_vector_wrapper("c19h.dump", d, cols)
+        R.elem += _cmp_snapshots(R, "read_lammps_vector_wrapper", V, [dict(e, positions=e["rows"][:, d + 2:]) for e in frames], dict(sig, reader="vector"), ALL_KEYS)
+        if case["vary"] != "all":
+            for c in (0, E // 2, E - 1):
+                A = read_additions("c19h.dump", d + 2 + c)
+                want = np.array([e["rows"][:, d + 2 + c] for e in frames])
+                if not isinstance(A, np.ndarray) or A.shape != want.shape or not (np.abs(A - want) <= 1e-12).all():
+                    R.fail(f"read_additions(ncol={d + 2 + c}) of the written frames differs", sig=dict(sig, reader="additions"), exp=want, obs=A)
+    R.outcome([heads[0], [[int(s.timestep), int(s.nparticle), digest(np.ascontiguousarray(s.positions))] for s in s2.snapshots]])
+    return R
+
+
+# -------------------------------------------------------------------------------------------- scale: HOOMD frames
+def gen_scale_gsd(tier, seed):
+    q = tier == "quick"
+    pairs = [[64, 10], [130, 12], [257, 10], [3, 65]] if q else [[n, F] for n in (64, 130, 257) for F in (10, 12)] + [[3, 65], [10, 130], [2, 257]]
+    for n, F in pairs:
+        for d in (3, 2):
+            yield {"d": d, "N": n, "F": F, "mode": "gsd", "vary_n": True}
+            yield {"d": d, "N": n, "F": F, "mode": "gsd", "vary_n": False}
+            yield {"d": d, "N": n, "F": F, "mode": "dcd", "vary_n": False}
+
+
+def run_scale_gsd(case):
+    reg = io19.install_stubs()
+    R = Result()
+    d = case["d"]
+    dcdmode = case["mode"] == "dcd"
+    frames, dcds = c19x.gsd_frames(d, case["N"], case["F"], case["vary_n"])
+    exps = gsd_expect(d, frames, dcds if dcdmode else None)
+    R.elem = 0
+    runs, ntr = _gsd_execute(R, reg, d, dcdmode, frames, dcds, exps, {"d": d, "mode": case["mode"], "slice": "scale"})
+    reg.gsd.clear()
+    reg.dcd.clear()
+    S = runs[0][1]
+    R.outcome(None if S is None else [[int(s.timestep), int(s.nparticle), digest(np.ascontiguousarray(s.positions)), digest(np.ascontiguousarray(s.particle_type))]
+                                      for s in S.snapshots])
+    return R
+
+
+# --------------------------------------------------------------------------------------------------- scale: logs
+S_SCALE = [9, 10, 11, 12]
+R_SCALE = [63, 64, 65, 130, 257]
+LOG_BIG = [12, 3800, 4]  # one log of more than 32 767 lines (9 long tables of ~3800 rows)
+SCALE_NOISE = ["none", "post", "blank", "text", "warn", "stepword", "numeric", "quoted", "blank2", "mlquote", "post", "unbalq"]
+
+
+def gen_scale_log(tier, seed):
+    q = tier == "quick"
+    k = 0
+    for S in S_SCALE:
+        for Rr in R_SCALE:
+            for C in ((4, 12) if q else (2, 4, 9, 12)):
+                for layout in (0, 1):
+                    k += 1
+                    if q and (k + S + C // 4) % 2:
+                        continue
+                    yield {"S": S, "R": Rr, "C": C, "layout": layout, "pre": "long" if k % 2 else "short", "seed": seed}
+    yield {"S": LOG_BIG[0], "R": LOG_BIG[1], "C": LOG_BIG[2], "layout": 1, "pre": "short", "seed": seed}
+    if "log_modern_header" not in KNOWN_OPEN:
+        for S in (1, 2, 10):
+            for Rr in (2, 65):
+                for C in (3, 12):
+                    yield {"S": S, "R": Rr, "C": C, "layout": 2, "pre": "long", "seed": seed}
+
+
+def run_scale_log(case):
+    from PyMatterSim.reader.simulation_log import read_lammpslog
+
+    R = Result()
+    S, layout, seed = case["S"], case["layout"], case["seed"]
+    text = PREAMBLE[case["pre"]]
+    secs = []
+    for k, (r, c) in enumerate(c19x.log_shapes(S, case["R"], case["C"])):
+        t, names, rows = c19x.log_section(seed, k, r, c, layout)
+        text += io19.NOISE[SCALE_NOISE[(k + S) % len(SCALE_NOISE)]] + t
+        secs.append((names, rows))
+    tails = {"end": "", "noise": io19.POST_LOOP + "\nTotal wall time: 0:10:01\n", "inc3cut": io19.incomplete_text(seed, S, 3, True),
+             "inc4": "run 100\n" + io19.incomplete_text(seed, S, 4, False)}
+    R.elem = 0
+    out = None
+    for tail, extra in tails.items():
+        if (case["R"] > 1000 and tail not in ("end", "inc3cut")) or (layout == 2 and tail not in ("end", "noise")):
+            continue
+        io19.put("c19.log", text + extra)
+        complete = tail in ("end", "noise")
+        ts = {"S": ">=9" if S >= 9 else "<9", "tail": "complete" if complete else "incomplete", "slice": "scale"}
+        if layout == 2:
+            ts["layout"] = "aligned_header"
+
+        def sg(generic, **kw):
+            return dict(ts, clause=generic, **kw)
+
+        frames = read_lammpslog("c19.log")
+        if not isinstance(frames, list) or (len(frames) != S if complete else len(frames) < S):
+            R.fail(f"{len(frames) if isinstance(frames, list) else type(frames).__name__} frames returned for a log with {S} complete sections (tail: {tail})",
+                   sig=sg("count"))
+            continue
+        R.elem += _cmp_sections(R, frames, secs, S, tail, sg)
+        if tail == "end":
+            out = [[list(map(str, df.columns)), digest(np.ascontiguousarray(df.values.astype(float)))] for df in frames]
+    R.outcome(out)
+    return R
 
 
 # ============================================================================================= subs
@@ -872,5 +1189,30 @@ def subs(tier, seed):
                  "(events per level quick 44/9/2, thorough 99/21/4), preamble x layout combinations 2 (quick) / 3; every state is closed with 6 (quick) / 8 tails "
                  "(end of file, wall-time line, timing noise, incomplete trailing sections of 0-4 rows) and read back: count, names, every value",
             bounds={"depth": 3}),
+        Sub("C19.scale.center", gen_scale_center, run_scale_center,
+            rule="SCALE slice (sizes, one value pattern per size): N in {10,12,100,130,257} x F in {1,10,12} (+ (12,65),(10,130) thorough; quick: 6 (N,F) pairs) x {2D,3D} x "
+                 "{x,xs,xu} x 5 type maps (two-/three-digit keys, a key carried by exactly ONE atom, all atoms) x shuffled lines i->(a i+b) mod N (another a,b per "
+                 "frame) / descending / ascending, 0/3/12 trailing columns; types by id, count, cell and origin differ in every frame",
+            bounds={"Nmax": 257, "Fmax": 130}),
+        Sub("C19.scale.vector", gen_scale_vector, run_scale_vector,
+            rule="SCALE slice: same (N,F) sizes x {2D,3D} x 12 (thorough also 6) trailing columns x 7 column lists of length 1..6 (two-digit ids, descending, repeated, "
+                 "id/type/coordinate columns mixed in; python or numpy integers) x line orders; headers from the encoder or from write_dump_header; count and cell change per frame",
+            bounds={"Nmax": 257, "Fmax": 130, "columns": 17}),
+        Sub("C19.scale.additions", gen_scale_additions, run_scale_additions,
+            rule="SCALE slice: same sizes x every zero-based column of lines with 12 (thorough also 1, 6) trailing columns x line orders x orthogonal/triclinic/write_dump_header headers",
+            bounds={"Nmax": 257, "Fmax": 130, "columns": 17}),
+        Sub("C19.scale.header", gen_scale_header, run_scale_header,
+            rule="SCALE slice: write_dump_header for N in {10,100,257,1000} x F in {1,10,12} (quick 4 pairs), timesteps up to 13 digits across 2^31, addson with 0/2/12 names, "
+                 "bounds and N changing per frame; headers tokenized; the file read back by DumpReader, read_lammps_wrapper (all fields), read_lammps_vector, read_additions",
+            bounds={"Nmax": 1000, "Fmax": 12}),
+        Sub("C19.scale.gsd", gen_scale_gsd, run_scale_gsd,
+            rule="SCALE slice: duck-typed HOOMD trajectories N in {64,130,257} x F in {10,12} + many short frames (3,65),(10,130),(2,257) x {2D,3D} x {gsd with N changing per "
+                 "frame, gsd, gsd+dcd}; type ids up to 299, steps beyond 2^31, box/types/positions differ per frame; all conversions as in C19.gsd / C19.gsd_dcd",
+            bounds={"Nmax": 257, "Fmax": 257}),
+        Sub("C19.scale.log", gen_scale_log, run_scale_log,
+            rule="SCALE slice: logs with S in {9,10,11,12} sections whose long table has R in {63,64,65,130,257} rows and C in {2,4,9,12} columns (quick {4,12}; half of the "
+                 "products), alternating with tables of R+1, R-1 rows and 1-3 row tables, 12 kinds of noise between the sections, 2 layouts, 4 tails; one log with 9 tables of ~3800 rows "
+                 "(> 32767 lines); count, names and every value compared",
+            bounds={"Smax": 12, "Rmax": 3801, "Cmax": 12}),
     ]
     return s
